@@ -18,7 +18,7 @@ RULE = ("cases = pairs of generated 3D plotfiles on a common mesh x layout relat
         "non-monotone or a selection is used")
 ASSUMPTIONS = ["generator/refparse trusted base", "pool shim M1 with shuffled schedules",
                "a pair with the same boxes in another order: 'refuse or correct' (statement silent)"]
-REQUIRED_OBS = {"combined": 80, "mismatched_refused": 10, "cli_runs": 5, "first_nonmonotone": 3}
+REQUIRED_OBS = {"combined": 80, "roles_swapped_same_process": 40, "mismatched_refused": 10, "cli_runs": 5, "first_nonmonotone": 3}
 TIMEOUT = {"quick": 300, "thorough": 1500}
 RELS = ["same", "order", "other", "single"]
 
@@ -141,6 +141,26 @@ def run_case(case, work, rec):
                                                 "first_nonmonotone": nonmono1})
             else:
                 rec.ok(key, rel != "same" or nonmono1 or v1 is not None or v2 is not None)
+        # roles swapped: the first input - whose box-to-file map drives the tasks and the output level
+        # headers - changes from call to call inside this process
+        out = os.path.join(work, f"out_{rel}_swapped")
+        key = (digest, rel, "swapped")
+        descr = f"layout relation={rel} roles swapped (second plotfile first) after {len(sels)} calls in the process"
+        pools.CTL.reset(mode="inproc", seed=rng.randrange(10 ** 6))
+        try:
+            combine(PlotfileCooker(p2), PlotfileCooker(p1), pltout=out)
+            rec.count("combined"); rec.count("roles_swapped_same_process")
+            exp = refmodel.concat(e2, list(range(len(n2))), e1, [i for i, v in enumerate(n1) if v not in n2])
+            probs = refmodel.compare(out, exp)
+            if not probs and not taste_ok(out):
+                probs.append("validation (with box coordinates) rejects the combined plotfile")
+            if probs:
+                rec.violation(f"combined plotfile differs from the per-box concatenation ({probs[0][:110]}): {descr}",
+                              key=key, witness={"relation": rel, "differences": probs[:5]})
+            else:
+                rec.ok(key, True)
+        except Exception as e:
+            rec.violation(f"combine raised {type(e).__name__}: {descr}", key=key, witness={"exc": repr(e)[:300]})
     # mismatched pairs: must be refused with nothing written
     mism = []
     if m1.nlevels >= 2:
